@@ -381,7 +381,13 @@ pub struct Rec {
 pub enum Format {
     /// wrap = None: single line
     Fasta { wrap: Option<usize> },
-    Fastq { qual_seed: u64 },
+    /// wrap = Some(width): sequence and quality wrapped over several lines (multi-line FASTQ, which the
+    /// reader accepts); quality lines then never start with '@' or '+', so that the file stays unambiguous
+    Fastq {
+        qual_seed: u64,
+        #[serde(default)]
+        wrap: Option<usize>,
+    },
 }
 
 #[derive(Clone, Debug, Serialize, Deserialize, PartialEq, Eq)]
@@ -433,6 +439,7 @@ impl Container {
         let f = match self.format {
             Format::Fasta { wrap: None } => "fasta",
             Format::Fasta { wrap: Some(_) } => "fasta-wrapped",
+            Format::Fastq { wrap: Some(_), .. } => "fastq-multiline",
             Format::Fastq { .. } => "fastq",
         };
         let g = match &self.gz {
@@ -568,7 +575,7 @@ pub fn container(allow_fastq: bool) -> BoxedStrategy<Container> {
     let wrap = prop_oneof![2 => Just(None), 1 => (1usize..=120).prop_map(Some), 1 => select(vec![1usize, 2, 60, 70, 80]).prop_map(Some)];
     let fasta = wrap.prop_map(|w| Format::Fasta { wrap: w });
     let fmt: BoxedStrategy<Format> = if allow_fastq {
-        prop_oneof![3 => fasta, 2 => any::<u64>().prop_map(|q| Format::Fastq { qual_seed: q })].boxed()
+        prop_oneof![3 => fasta, 2 => (any::<u64>(), prop_oneof![3 => Just(None), 1 => (1usize..=120).prop_map(Some)]).prop_map(|(q, wrap)| Format::Fastq { qual_seed: q, wrap })].boxed()
     } else {
         fasta.boxed()
     };
@@ -640,6 +647,62 @@ pub fn records_in_container(p: RecParams) -> BoxedStrategy<(Vec<Rec>, Container)
             (Just(recs), container(allow_fastq))
         })
         .boxed()
+}
+
+// ---------------------------------------------------------------------------------------------
+// alignment of record starts: readers and pre-passes that scan the file in blocks (8 KiB buffers, 64 KiB,
+// 1 MiB) are only wrong when a record boundary or a header line meets a block boundary exactly
+
+#[derive(Clone, Copy, Debug, Serialize, Deserialize, PartialEq, Eq)]
+pub struct Align {
+    /// byte offset (of the uncompressed text) that a record start is moved to ...
+    pub target: usize,
+    /// ... minus this many bytes (negative: the block boundary falls inside the header line)
+    pub delta: i32,
+    /// which record (monotone map over the candidates)
+    pub pick: u16,
+}
+
+pub const ALIGN_TARGETS: &[usize] = &[4096, 8192, 16384, 32768, 65536, 131072, 1 << 20, 2 << 20];
+
+pub fn align_strategy(max_target: usize) -> BoxedStrategy<Align> {
+    let t: Vec<usize> = ALIGN_TARGETS.iter().copied().filter(|&t| t <= max_target).collect();
+    (select(t), prop_oneof![4 => Just(0i32), 2 => -1i32..=1, 2 => -12i32..=-1, 1 => -40i32..=40], any::<u16>())
+        .prop_map(|(target, delta, pick)| Align { target, delta, pick })
+        .boxed()
+}
+
+/// Moves the start of one record of a single-line LF FASTA serialisation to `target - delta` by appending
+/// bases to the record before it. Returns the index of the aligned record.
+pub fn align_records(recs: &mut [Rec], a: &Align) -> Option<usize> {
+    let want = (a.target as i64 - a.delta as i64).max(0) as usize;
+    let size = |r: &Rec| 1 + crate::io::header_line(r).len() + 1 + if r.seq.0.is_empty() { 0 } else { r.seq.0.len() + 1 };
+    let mut off = vec![0usize; recs.len() + 1];
+    for (i, r) in recs.iter().enumerate() {
+        off[i + 1] = off[i] + size(r);
+    }
+    // candidates: records i >= 1 that start at or before the wanted offset
+    let cands: Vec<usize> = (1..recs.len()).filter(|&i| off[i] <= want).collect();
+    if cands.is_empty() {
+        return None;
+    }
+    let i = cands[crate::util::idx16(a.pick, cands.len())];
+    let mut pad = want - off[i];
+    let prev = &mut recs[i - 1];
+    if pad > 0 && prev.seq.0.is_empty() {
+        // the first base also brings the line terminator
+        if pad == 1 {
+            return None;
+        }
+        pad -= 1;
+    }
+    let unit: Vec<u8> = if prev.seq.0.is_empty() { b"ACGTTGCA".to_vec() } else { prev.seq.0.clone() };
+    let clean: Vec<u8> = unit.iter().copied().filter(|&b| model::is_base(b)).collect();
+    let unit = if clean.is_empty() { b"ACGTTGCA".to_vec() } else { clean };
+    for j in 0..pad {
+        prev.seq.0.push(unit[j % unit.len()]);
+    }
+    Some(i)
 }
 
 // ---------------------------------------------------------------------------------------------
